@@ -26,6 +26,7 @@ import (
 	"io/ioutil"
 	"math/rand"
 	"os"
+	"os/exec"
 	"path/filepath"
 	"runtime/debug"
 	"sort"
@@ -1371,6 +1372,24 @@ func (e *env) runPlock(s *script) error {
 
 // ---------------------------------------------------------------- main
 
+// peakRSSMB reads the high-water mark of this process' resident set (VmHWM).
+func peakRSSMB() int {
+	b, err := ioutil.ReadFile("/proc/self/status")
+	if err != nil {
+		return -1
+	}
+	for _, l := range strings.Split(string(b), "\n") {
+		if strings.HasPrefix(l, "VmHWM:") {
+			f := strings.Fields(l)
+			if len(f) >= 2 {
+				kb, _ := strconv.Atoi(f[1])
+				return kb / 1024
+			}
+		}
+	}
+	return -1
+}
+
 func TestDriver(t *testing.T) {
 	rig.Quiet()
 	res := hx.NewResult()
@@ -1389,13 +1408,9 @@ func TestDriver(t *testing.T) {
 		res.Infra("cannot open trace: %v", err)
 		return
 	}
-	defer tr.Close()
-	// scratch space: memory-backed when available (snapshots fsync), never inside /repo or /verif
-	baseParent := os.Getenv("VERIF_WORK")
-	if st, err := os.Stat("/dev/shm"); err == nil && st.IsDir() && os.Getenv("VERIF_C14_DISK") == "" {
-		baseParent = "/dev/shm"
-	}
-	base, err := ioutil.TempDir(baseParent, "verif-c14-")
+	// scratch space: under os.TempDir() (vcheck points TMPDIR into the work dir of the check, which it removes
+	// whatever happens to this process); never inside /repo or /verif
+	base, err := ioutil.TempDir("", "verif-c14-")
 	if err != nil {
 		res.Infra("cannot create scratch dir: %v", err)
 		return
@@ -1416,7 +1431,23 @@ func TestDriver(t *testing.T) {
 		}
 		scripts = append(scripts, s)
 	}
+	// The cmdutils state managers never close the go-ds-crdt / ipfs-lite instances they create (they are
+	// one-shot command-line helpers), so every export/import on a crdt manager leaves its datastore caches and
+	// memtables reachable from leaked goroutines (~20-60 MB each).  Those scripts therefore run in short-lived
+	// child processes of this test binary, a few at a time; everything else runs here.
+	child := os.Getenv("VERIF_C14_CHILD") != ""
+	var local, heavy []*script
+	for _, s := range scripts {
+		if !child && s.M == "xfer" && s.Path == "json" {
+			heavy = append(heavy, s)
+		} else {
+			local = append(local, s)
+		}
+	}
 	workers := hx.EnvInt("VERIF_C14_WORKERS", 6)
+	if child {
+		workers = 2
+	}
 	ch := make(chan *script)
 	var wg sync.WaitGroup
 	for w := 0; w < workers; w++ {
@@ -1449,17 +1480,108 @@ func TestDriver(t *testing.T) {
 				if err != nil {
 					res.Infra("script %d (%s): %v", s.ID, s.M, err)
 				}
-				id := map[string]interface{}{"m": s.M, "kind": s.Kind, "path": s.Path, "src": s.Src, "tgt0": s.Tgt0,
-					"skind": s.SKind, "steps": s.Steps, "keep": s.Keep, "old": s.Old, "book": s.Book, "junk": s.Junk, "fault": s.Fault, "iters": s.Iters, "na": s.NA, "nb": s.NB}
-				res.Case(id, s.NT)
-				res.Count(-1) // evaluations = recorded steps (counted in emit)
 			}
 		}()
 	}
-	for _, s := range scripts {
+	for _, s := range local {
 		ch <- s
 	}
 	close(ch)
+
+	// child processes: chunks of heavy scripts, at most three at a time
+	const chunk = 12
+	var childTraces []string
+	childPeak, childLines := 0, 0
+	var cmu sync.Mutex
+	sem := make(chan struct{}, 3)
+	var cwg sync.WaitGroup
+	for i := 0; i < len(heavy); i += chunk {
+		j := i + chunk
+		if j > len(heavy) {
+			j = len(heavy)
+		}
+		part := heavy[i:j]
+		k := i / chunk
+		in := filepath.Join(base, fmt.Sprintf("chunk-%d.ndjson", k))
+		out := filepath.Join(base, fmt.Sprintf("chunk-%d.out.json", k))
+		trp := filepath.Join(base, fmt.Sprintf("chunk-%d.trace.ndjson", k))
+		var b bytes.Buffer
+		for _, s := range part {
+			l, _ := json.Marshal(s)
+			b.Write(l)
+			b.WriteByte('\n')
+		}
+		if err := ioutil.WriteFile(in, b.Bytes(), 0600); err != nil {
+			res.Infra("cannot write chunk: %v", err)
+			break
+		}
+		cmu.Lock()
+		childTraces = append(childTraces, trp)
+		cmu.Unlock()
+		cwg.Add(1)
+		sem <- struct{}{}
+		go func() {
+			defer cwg.Done()
+			defer func() { <-sem }()
+			cmd := exec.Command(os.Args[0], "-test.run", "^TestDriver$", "-test.timeout", "40m")
+			cmd.Env = append(os.Environ(), "VERIF_C14_CHILD=1", "VERIF_IN="+in, "VERIF_OUT="+out, "VERIF_TRACE="+trp,
+				"VERIF_REPLAY=")
+			o, err := cmd.CombinedOutput()
+			rb, rerr := ioutil.ReadFile(out)
+			var cr struct {
+				Evaluations int                    `json:"evaluations"`
+				Infra       []string               `json:"infra"`
+				Extra       map[string]interface{} `json:"extra"`
+			}
+			if rerr != nil || json.Unmarshal(rb, &cr) != nil {
+				tail := string(o)
+				if len(tail) > 1500 {
+					tail = tail[len(tail)-1500:]
+				}
+				res.Infra("child process for scripts %d..%d failed (%v): %s", part[0].ID, part[len(part)-1].ID, err, tail)
+				return
+			}
+			for _, m := range cr.Infra {
+				res.Infra("%s", m)
+			}
+			res.Count(cr.Evaluations)
+			cmu.Lock()
+			if p, ok := cr.Extra["driver_peak_rss_mb"].(float64); ok && int(p) > childPeak {
+				childPeak = int(p)
+			}
+			if l, ok := cr.Extra["trace_lines"].(float64); ok {
+				childLines += int(l)
+			}
+			cmu.Unlock()
+		}()
+	}
 	wg.Wait()
-	res.Set("trace_lines", tr.Lines())
+	cwg.Wait()
+	if !child {
+		for _, s := range scripts {
+			id := map[string]interface{}{"m": s.M, "kind": s.Kind, "path": s.Path, "src": s.Src, "tgt0": s.Tgt0,
+				"skind": s.SKind, "steps": s.Steps, "keep": s.Keep, "old": s.Old, "book": s.Book, "junk": s.Junk, "fault": s.Fault, "iters": s.Iters, "na": s.NA, "nb": s.NB}
+			res.Case(id, s.NT)
+			res.Count(-1) // evaluations = recorded steps (counted in emit)
+		}
+	}
+	// the children's records go behind ours, in the same file
+	lines := tr.Lines()
+	tr.Close()
+	if len(childTraces) > 0 {
+		f, err := os.OpenFile(tracePath, os.O_APPEND|os.O_WRONLY, 0644)
+		if err != nil {
+			res.Infra("cannot append to the trace: %v", err)
+		} else {
+			for _, p := range childTraces {
+				if b, err := ioutil.ReadFile(p); err == nil {
+					f.Write(b)
+				}
+			}
+			f.Close()
+		}
+	}
+	res.Set("trace_lines", lines+childLines)
+	res.Set("driver_peak_rss_mb", peakRSSMB())
+	res.Set("driver_child_peak_rss_mb", childPeak)
 }
